@@ -214,19 +214,101 @@ theorem not_undef : ∀ (t : Ty) (v : Val), hasTy v t = true → mayBeUndef t = 
 
 /-! ### leaves, lists -/
 
+theorem takeWhile_all {α} (p : α → Bool) : ∀ (l : List α), ∀ x ∈ l.takeWhile p, p x = true
+  | [], x, h => by simp at h
+  | a :: r, x, h => by
+    simp only [List.takeWhile_cons] at h
+    split at h
+    · rcases List.mem_cons.mp h with rfl | h'
+      · assumption
+      · exact takeWhile_all p r x h'
+    · simp at h
+
+theorem magVal_append_zeros : ∀ (a z : Bytes), (∀ x ∈ z, x = 0) → magVal (a ++ z) = magVal a
+  | [], z, h => by
+    induction z with
+    | nil => rfl
+    | cons x r ih =>
+      have hx : x = 0 := h x (by simp)
+      simp only [List.nil_append, magVal] at ih ⊢
+      rw [ih (fun y hy => h y (by simp [hy])), hx]; rfl
+  | b :: a, z, h => by simp [magVal, magVal_append_zeros a z h]
+
+theorem magVal_zeros (m : Bytes) (hm : ∀ x ∈ m, x = 0) : magVal m = 0 := by
+  have := magVal_append_zeros [] m hm
+  simpa [magVal] using this
+
+theorem magVal_take_sigLen (l : Bytes) : magVal (l.take (sigLen l)) = magVal l := by
+  have hl : l = (l.reverse.dropWhile (· == 0)).reverse ++ (l.reverse.takeWhile (· == 0)).reverse := by
+    have hsplit := List.takeWhile_append_dropWhile (p := (· == (0 : UInt8))) (l := l.reverse)
+    have := congrArg List.reverse hsplit
+    rw [List.reverse_append, List.reverse_reverse] at this
+    exact this.symm
+  have hz : ∀ x ∈ (l.reverse.takeWhile (· == 0)).reverse, x = 0 := by
+    intro x hx
+    have := takeWhile_all (· == (0 : UInt8)) l.reverse x (List.mem_reverse.mp hx)
+    simpa using this
+  by_cases hnil : l.reverse.dropWhile (· == 0) = []
+  · rw [hnil] at hl
+    simp only [List.reverse_nil, List.nil_append] at hl
+    have hall : ∀ x ∈ l, x = 0 := by rw [hl]; exact hz
+    rw [magVal_zeros l hall, magVal_zeros _ (fun x hx => hall x (List.mem_of_mem_take hx))]
+  · have hs : sigLen l = (l.reverse.dropWhile (· == 0)).reverse.length := by
+      unfold sigLen
+      split
+      · rename_i h; exact absurd h hnil
+      · simp
+    rw [hs]
+    generalize (l.reverse.dropWhile (· == 0)).reverse = a at *
+    generalize (l.reverse.takeWhile (· == 0)).reverse = z at *
+    subst hl
+    rw [List.take_left, magVal_append_zeros a z hz]
+
+
+theorem magVal_take_sigCount (l : Bytes) : magVal (l.take (sigCount l)) = magVal l := by
+  have hl : l = (l.reverse.dropWhile (· == 0)).reverse ++ (l.reverse.takeWhile (· == 0)).reverse := by
+    have hsplit := List.takeWhile_append_dropWhile (p := (· == (0 : UInt8))) (l := l.reverse)
+    have := congrArg List.reverse hsplit
+    rw [List.reverse_append, List.reverse_reverse] at this
+    exact this.symm
+  have hz : ∀ x ∈ (l.reverse.takeWhile (· == 0)).reverse, x = 0 := by
+    intro x hx
+    have := takeWhile_all (· == (0 : UInt8)) l.reverse x (List.mem_reverse.mp hx)
+    simpa using this
+  have hs : sigCount l = (l.reverse.dropWhile (· == 0)).reverse.length := by simp [sigCount]
+  rw [hs]
+  generalize (l.reverse.dropWhile (· == 0)).reverse = a at *
+  generalize (l.reverse.takeWhile (· == 0)).reverse = z at *
+  subst hl
+  rw [List.take_left, magVal_append_zeros a z hz]
+
+theorem sigCount_le (l : Bytes) : sigCount l ≤ l.length := by
+  unfold sigCount
+  have h := List.takeWhile_append_dropWhile (p := (· == (0 : UInt8))) (l := l.reverse)
+  have h2 := congrArg List.length h
+  simp only [List.length_append, List.length_reverse] at h2
+  omega
+
+/-- what `integer_term_as` reads from a big integer of at most 8 digits -/
+theorem deInt_big (k : IntTy) (neg : Bool) (d : Bytes) (hl : d.length ≤ 8) (v : Int)
+    (hv : (if neg then -((magVal d : Nat) : Int) else ((magVal d : Nat) : Int)) = v) (hr : k.inRange v = true) :
+    deInt k (.big neg d) = .ok (.int k v) := by
+  have h8 : ¬ sigCount d > 8 := by have := sigCount_le d; omega
+  simp only [deInt, h8, if_false, magVal_take_sigCount, hv, hr, if_true]
+
 theorem deInt_serInt (k : IntTy) (i : Int) (h : k.inRange i = true) : deInt k (serInt k i) = .ok (.int k i) := by
   unfold serInt
   split
   · rename_i hc
     obtain ⟨rfl, hi⟩ := hc
-    simp only [IntTy.inRange, IntTy.lo, IntTy.hi, Bool.and_eq_true] at h
-    have h1 := of_decide_eq_true h.1
-    have h2 := of_decide_eq_true h.2
+    have h' := h
+    simp only [IntTy.inRange, IntTy.lo, IntTy.hi, Bool.and_eq_true] at h'
+    have h1 := of_decide_eq_true h'.1
+    have h2 := of_decide_eq_true h'.2
     simp only [i64Max] at hi
     have hl : (leN 8 i.toNat).length = 8 := leN_length 8 _
     have hm : magVal (leN 8 i.toNat) = i.toNat := magVal_leN 8 _ (by omega)
-    simp [deInt, hl, hm]
-    omega
+    exact deInt_big .u64 false _ (by omega) i (by simp [hm]; omega) h
   · simp [deInt, h]
 
 theorem mapME_ok {α β : Type} (f : α → SRes β) (g : β → α) :
